@@ -1,7 +1,18 @@
 """E5: bounds domain for host-int variables, relative to the length of a named sequence.
 
-A bound is None (unbounded), ("c", k) for the constant k, or ("len", S, k) for len(S) + k, where S is the
-normalised text of a sequence expression.  len(S) >= 0 is the only fact known about lengths.  A variable maps to
+A bound is None (unbounded), ("c", k) for the constant k, ("len", S, k) for len(S) + k, where S is the
+normalised text of a sequence expression, or ("sym", P, k) for P + k where P is a parameter of the analysed function
+that is never assigned (an opaque integer, used for helper summaries).  len(S) >= 0 is the only fact known about
+lengths; nothing is known about a sym.
+
+Extensions used by the callers:
+  assume     {key: (lo, hi)} initial bounds for names / tracked attribute paths (class invariants, parameter contracts)
+  tracked    attribute paths treated as variables ("self.nextToken")
+  preds      {call text: expression AST} zero-argument predicate methods that are a single `return <expr>`
+  resets     callable(ast) -> keys whose bounds fall back to `assume` (calls that may write a tracked path)
+  summaries  callable(call ast) -> Summary or None: bounds of a helper's return value in terms of its parameters
+Bounds on compound expressions (`a + n - 1 < len(S)`) are remembered under the expression's text and dropped when a
+constituent changes.  A variable maps to
 (lo, hi).  The analysis is a forward dataflow over the CFG (E3) with branch refinement on comparisons, the usual
 join (min of lower bounds / max of upper bounds, None when incomparable) and widening after a few visits.
 """
@@ -27,6 +38,8 @@ def le(a, b):
         return True if a[1] <= b[2] else None       # len >= 0  =>  len + k >= k >= c
     if a[0] == "len" and b[0] == "c":
         return False if b[1] < a[2] else None
+    if a[0] == "sym" and b[0] == "sym" and a[1] == b[1]:
+        return a[2] <= b[2]
     return None
 
 
@@ -35,7 +48,22 @@ def shift(b, k):
         return None
     if b[0] == "c":
         return ("c", b[1] + k)
-    return ("len", b[1], b[2] + k)
+    return (b[0], b[1], b[2] + k)
+
+
+def add_bound(a, b):
+    """a + b for two bounds of the same side (both lower or both upper)"""
+    if a is None or b is None:
+        return None
+    if a[0] == "c":
+        return shift(b, a[1])
+    if b[0] == "c":
+        return shift(a, b[1])
+    return None
+
+
+def neg_const(b):
+    return ("c", -b[1]) if b is not None and b[0] == "c" else None
 
 
 def tighter_hi(cur, new):
@@ -88,63 +116,136 @@ def join_lo(a, b):
     return None
 
 
+class Summary:
+    """Bounds of a helper function's return value, in terms of its own parameters (sym bounds)."""
+
+    def __init__(self, params, lo, hi):
+        self.params, self.lo, self.hi = params, lo, hi
+
+
+def summarise(func_node, **kw):
+    """Summary of func_node's returned value over all normal returns, or None."""
+    b = Bounds(func_node, **kw)
+    lo = hi = None
+    first = True
+    for n in b.g.nodes:
+        if n.kind != "return" or n.ast.value is None or n.id not in b.state:
+            continue
+        l, h = b.ev(n.ast.value, b.state[n.id])
+        if first:
+            lo, hi, first = l, h, False
+        else:
+            lo, hi = join_lo(lo, l), join_hi(hi, h)
+    if first:
+        return None
+    a = func_node.args
+    params = [x.arg for x in a.posonlyargs + a.args]
+    return Summary(params, lo, hi)
+
+
 class Bounds:
-    def __init__(self, func_node):
+    def __init__(self, func_node, assume=None, tracked=(), preds=None, resets=None, summaries=None):
+        self.assume = dict(assume or {})
+        self.tracked = set(tracked)
+        self.preds = dict(preds or {})
+        self.resets = resets
+        self.summaries = summaries
+        assigned = set()
+        for n in ast.walk(func_node):
+            if isinstance(n, ast.Name) and isinstance(n.ctx, (ast.Store, ast.Del)):
+                assigned.add(n.id)
+        a = func_node.args
+        self.syms = {x.arg for x in a.posonlyargs + a.args + a.kwonlyargs} - assigned - {"self", "cls"}
         self.g = CFG(func_node, implicit_exc=False)
         self.state = self._solve()
 
     # ---------------------------------------------------------------- expression -> (lo, hi)
+    def key(self, e):
+        if isinstance(e, ast.Name):
+            return e.id
+        if isinstance(e, ast.Attribute):
+            t = norm(e)
+            return t if t in self.tracked else None
+        return None
+
+    def lookup(self, k, st):
+        if k in st:
+            return st[k]
+        if k in self.assume:
+            return self.assume[k]
+        if k in self.syms:
+            return (("sym", k, 0), ("sym", k, 0))
+        return (None, None)
+
     def ev(self, e, st):
+        r = self._ev(e, st)
+        if not isinstance(e, (ast.Name, ast.Constant)):
+            k = "expr:" + norm(e)
+            if k in st:
+                x = st[k]
+                r = (tighter_lo(r[0], x[0]), tighter_hi(r[1], x[1]))
+        return r
+
+    def _ev(self, e, st):
         if isinstance(e, ast.Constant) and isinstance(e.value, int) and not isinstance(e.value, bool):
             return (("c", e.value), ("c", e.value))
         if isinstance(e, ast.UnaryOp) and isinstance(e.op, ast.USub) and isinstance(e.operand, ast.Constant) \
                 and isinstance(e.operand.value, int):
             return (("c", -e.operand.value), ("c", -e.operand.value))
-        if isinstance(e, ast.Name):
-            return st.get(e.id, (None, None))
+        k = self.key(e)
+        if k is not None:
+            return self.lookup(k, st)
         if isinstance(e, ast.Call) and norm(e.func) == "len" and len(e.args) == 1:
             s = norm(e.args[0])
             return (("len", s, 0), ("len", s, 0))
         if isinstance(e, ast.BinOp) and isinstance(e.op, ast.Mod) and isinstance(e.right, ast.Constant) \
                 and isinstance(e.right.value, int) and e.right.value > 0:
             return (("c", 0), ("c", e.right.value - 1))
-        if isinstance(e, ast.BinOp) and isinstance(e.op, ast.Sub) and isinstance(e.left, ast.Constant) \
-                and isinstance(e.left.value, int):
-            r = self.ev(e.right, st)
-            c = e.left.value
-            lo = ("c", c - r[1][1]) if r[1] is not None and r[1][0] == "c" else None
-            hi = ("c", c - r[0][1]) if r[0] is not None and r[0][0] == "c" else None
-            return (lo, hi)
-        if isinstance(e, ast.BinOp) and isinstance(e.op, (ast.Add, ast.Sub)):
+        if isinstance(e, ast.BinOp) and isinstance(e.op, ast.Add):
             l, r = self.ev(e.left, st), self.ev(e.right, st)
-            sign = 1 if isinstance(e.op, ast.Add) else -1
-            # x +/- const
-            if r[0] is not None and r[0] == r[1] and r[0][0] == "c":
-                k = sign * r[0][1]
-                return (shift(l[0], k), shift(l[1], k))
-            if sign == 1 and l[0] is not None and l[0] == l[1] and l[0][0] == "c":
-                return (shift(r[0], l[0][1]), shift(r[1], l[0][1]))
-            # const-bounded + len(S)
-            if sign == 1 and r[0] is not None and r[0] == r[1] and r[0][0] == "len":
-                lo = ("len", r[0][1], r[0][2] + l[0][1]) if l[0] is not None and l[0][0] == "c" else None
-                hi = ("len", r[0][1], r[0][2] + l[1][1]) if l[1] is not None and l[1][0] == "c" else None
-                return (lo, hi)
-            if sign == 1 and l[0] is not None and l[0] == l[1] and l[0][0] == "len":
-                lo = ("len", l[0][1], l[0][2] + r[0][1]) if r[0] is not None and r[0][0] == "c" else None
-                hi = ("len", l[0][1], l[0][2] + r[1][1]) if r[1] is not None and r[1][0] == "c" else None
-                return (lo, hi)
-            return (None, None)
+            return (add_bound(l[0], r[0]), add_bound(l[1], r[1]))
+        if isinstance(e, ast.BinOp) and isinstance(e.op, ast.Sub):
+            l, r = self.ev(e.left, st), self.ev(e.right, st)
+            return (add_bound(l[0], neg_const(r[1])), add_bound(l[1], neg_const(r[0])))
         if isinstance(e, ast.Call) and norm(e.func) in ("min", "max") and len(e.args) == 2:
             a, b = self.ev(e.args[0], st), self.ev(e.args[1], st)
             if norm(e.func) == "min":
                 return (join_lo(a[0], b[0]), tighter_hi(a[1], b[1]))
             return (tighter_lo(a[0], b[0]), join_hi(a[1], b[1]))
+        if isinstance(e, ast.IfExp):
+            a = self.ev(e.body, self.refine(e.test, True, st))
+            b = self.ev(e.orelse, self.refine(e.test, False, st))
+            return (join_lo(a[0], b[0]), join_hi(a[1], b[1]))
+        if isinstance(e, ast.Call) and self.summaries is not None:
+            sm = self.summaries(e)
+            if sm is not None:
+                return self._apply_summary(sm, e, st)
         return (None, None)
+
+    def _apply_summary(self, sm, call, st):
+        actual = {}
+        for p, a in zip(sm.params[1:] if sm.params[:1] == ["self"] else sm.params, call.args):
+            actual[p] = a
+        for kw in call.keywords:
+            if kw.arg:
+                actual[kw.arg] = kw.value
+
+        def sub(b, side):
+            if b is None or b[0] != "sym":
+                return b
+            a = actual.get(b[1])
+            if a is None:
+                return None
+            return shift(self.ev(a, st)[side], b[2])
+
+        return (sub(sm.lo, 0), sub(sm.hi, 1))
 
     # ---------------------------------------------------------------- refinement
     def refine(self, test, pol, st):
         if isinstance(test, ast.UnaryOp) and isinstance(test.op, ast.Not):
             return self.refine(test.operand, not pol, st)
+        if isinstance(test, ast.Call) and norm(test) in self.preds:
+            return self.refine(self.preds[norm(test)], pol, st)
         if isinstance(test, ast.BoolOp):
             conj = isinstance(test.op, ast.And)
             if conj == pol:
@@ -155,16 +256,23 @@ class Bounds:
             outs = [self.refine(v, pol, dict(st)) for v in test.values]
             res = outs[0]
             for o in outs[1:]:
-                res = join_state(res, o)
+                res = join_state(res, o, self)
             return res
         if isinstance(test, ast.Compare) and len(test.ops) == 1:
             op, l, r = test.ops[0], test.left, test.comparators[0]
             st = dict(st)
             for var, other, flip in ((l, r, False), (r, l, True)):
-                if not isinstance(var, ast.Name):
+                if isinstance(var, ast.Constant):
                     continue
+                k = self.key(var)
+                if k is None:
+                    if not isinstance(var, (ast.BinOp,)):
+                        continue
+                    k = "expr:" + norm(var)
+                    lo, hi = st.get(k, (None, None))
+                else:
+                    lo, hi = self.lookup(k, st)
                 b = self.ev(other, st)
-                lo, hi = st.get(var.id, (None, None))
                 o = type(op)
                 if flip:
                     o = {ast.Lt: ast.Gt, ast.Gt: ast.Lt, ast.LtE: ast.GtE, ast.GtE: ast.LtE}.get(o, o)
@@ -182,48 +290,91 @@ class Bounds:
                 elif o is ast.Eq:
                     lo = tighter_lo(lo, b[0])
                     hi = tighter_hi(hi, b[1])
-                st[var.id] = (lo, hi)
+                elif o is ast.NotEq and b[0] is not None and b[0] == b[1]:
+                    if lo == b[0]:
+                        lo = shift(lo, 1)
+                    if hi == b[0]:
+                        hi = shift(hi, -1)
+                st[k] = (lo, hi)
             return st
         return st
 
     # ---------------------------------------------------------------- solver
+    def _kill(self, st, keys):
+        """`keys` changed: compound-expression facts mentioning them are dropped."""
+        if not keys:
+            return
+        for k in [k for k in st if k.startswith("expr:")]:
+            if any(_mentions(k[5:], x) for x in keys):
+                del st[k]
+
+    def _apply_resets(self, a, st):
+        if self.resets is None or a is None:
+            return
+        keys = self.resets(a)
+        for k in keys:
+            st.pop(k, None)
+        self._kill(st, keys)
+
     def _transfer(self, node, label, st):
         st = dict(st)
         a = node.ast
         if node.kind == "test":
+            self._apply_resets(a, st)
             if label in ("true", "false"):
                 return self.refine(a, label == "true", st)
             return st
         if node.kind == "for":
-            if label == "iter" and isinstance(a.target, ast.Name):
+            self._apply_resets(a.iter, st)
+            if label == "iter":
                 it = a.iter
-                rng = (None, None)
-                if isinstance(it, ast.Call) and norm(it.func) == "range":
+                tgt = a.target
+                names = [n.id for n in ast.walk(tgt) if isinstance(n, ast.Name)]
+                for nm in names:
+                    st[nm] = (None, None)
+                self._kill(st, names)
+                if isinstance(tgt, ast.Name) and isinstance(it, ast.Call) and norm(it.func) == "range":
                     args = it.args
+                    rng = (None, None)
                     if len(args) == 1:
                         rng = (("c", 0), shift(self.ev(args[0], st)[1], -1))
                     elif len(args) == 2:
                         rng = (self.ev(args[0], st)[0], shift(self.ev(args[1], st)[1], -1))
                     elif len(args) == 3 and norm(args[2]) == "-1":
                         rng = (shift(self.ev(args[1], st)[0], 1), self.ev(args[0], st)[1])
-                st[a.target.id] = rng
-            elif label == "iter":
-                for n in ast.walk(a.target):
-                    if isinstance(n, ast.Name):
-                        st.pop(n.id, None)
+                    st[tgt.id] = rng
+                elif isinstance(tgt, ast.Tuple) and tgt.elts and isinstance(tgt.elts[0], ast.Name) \
+                        and isinstance(it, ast.Call) and norm(it.func) == "enumerate" and len(it.args) == 1:
+                    st[tgt.elts[0].id] = (("c", 0), ("len", norm(it.args[0]), -1))
             return st
-        if isinstance(a, ast.Assign) and len(a.targets) == 1 and isinstance(a.targets[0], ast.Name):
-            st[a.targets[0].id] = self.ev(a.value, st)
+        if node.kind not in ("stmt", "return", "with"):
+            return st
+        self._apply_resets(a, st)
+        if isinstance(a, ast.Assign) and len(a.targets) == 1 and self.key(a.targets[0]) is not None:
+            k = self.key(a.targets[0])
+            v = self.ev(a.value, st)
+            self._kill(st, [k])
+            st[k] = v
             return st
         if isinstance(a, ast.Assign):
+            names = []
             for t in a.targets:
                 for n in ast.walk(t):
                     if isinstance(n, ast.Name) and isinstance(n.ctx, ast.Store):
-                        st.pop(n.id, None)
+                        names.append(n.id)
+                    elif isinstance(n, ast.Attribute) and norm(n) in self.tracked:
+                        names.append(norm(n))
+            for nm in names:
+                st[nm] = (None, None)
+            self._kill(st, names)
             return st
-        if isinstance(a, ast.AugAssign) and isinstance(a.target, ast.Name):
-            fake = ast.BinOp(left=ast.Name(id=a.target.id, ctx=ast.Load()), op=a.op, right=a.value)
-            st[a.target.id] = self.ev(fake, st)
+        if isinstance(a, ast.AugAssign) and self.key(a.target) is not None:
+            k = self.key(a.target)
+            load = ast.Name(id=k, ctx=ast.Load()) if isinstance(a.target, ast.Name) else a.target
+            fake = ast.BinOp(left=load, op=a.op, right=a.value)
+            v = self._ev(fake, st)
+            self._kill(st, [k])
+            st[k] = v
             return st
         return st
 
@@ -240,7 +391,7 @@ class Bounds:
             for label, t in n.succ:
                 out = self._transfer(n, label, s_in)
                 if t.id in state:
-                    merged = join_state(state[t.id], out)
+                    merged = join_state(state[t.id], out, self)
                     if visits.get(t.id, 0) > 6:
                         merged = {k: v for k, v in merged.items() if state[t.id].get(k) == v}
                     if merged != state[t.id]:
@@ -255,10 +406,21 @@ class Bounds:
         return self.state.get(node.id, {})
 
 
-def join_state(a, b):
+def _mentions(text, name):
+    import re
+    return re.search(r"(?<![\w.])" + re.escape(name) + r"(?![\w])", text) is not None
+
+
+def join_state(a, b, bounds=None):
     out = {}
-    for k in a.keys() & b.keys():
-        out[k] = (join_lo(a[k][0], b[k][0]), join_hi(a[k][1], b[k][1]))
+    keys = a.keys() & b.keys()
+    if bounds is not None:
+        # a key absent on one side still has its assumed / symbolic value there
+        keys = {k for k in a.keys() | b.keys() if not k.startswith("expr:")} | keys
+    for k in keys:
+        x = a[k] if k in a else bounds.lookup(k, a)
+        y = b[k] if k in b else bounds.lookup(k, b)
+        out[k] = (join_lo(x[0], y[0]), join_hi(x[1], y[1]))
     return out
 
 
@@ -267,4 +429,6 @@ def show(b):
         return "?"
     if b[0] == "c":
         return str(b[1])
+    if b[0] == "sym":
+        return f"{b[1]}{b[2]:+d}" if b[2] else b[1]
     return f"len({b[1]}){b[2]:+d}" if b[2] else f"len({b[1]})"
